@@ -218,7 +218,8 @@ func (p *Program) newExec(ob *Obligation, prefix []int) *Exec {
 		freshSeq: map[string]int{}, groupIv: map[string]*smt.Term{}, modKinds: map[int]*ModInfo{},
 		atoms: map[string]bool{}, assertsSeen: map[string]int{}, reached: map[string]bool{},
 		funcs: map[string]bool{}, stubs: map[string]bool{}, native: map[string]interface{}{},
-		blobs: map[*ArrObj]BigVal{}, digests: map[*ArrObj]*smt.Term{}}
+		blobs: map[*ArrObj]BigVal{}, digests: map[*ArrObj]*smt.Term{},
+		birth: map[string]int{}, maxBirthMemo: map[int]int{}}
 }
 
 func (p *Program) runPath(ob *Obligation, fn *ssa.Function, prefix []int) (res *PathResult) {
